@@ -408,6 +408,10 @@ func (n *Nat) IsProbablyPrime() ct.Bool {
 // if capacity < 0, capacity will be x.AnnouncedLen() + shift.
 func (n *Nat) LshCap(x *Nat, shift uint, capacity int) {
 	(*saferith.Nat)(n).Lsh((*saferith.Nat)(x), shift, capacity)
+	if capacity >= 0 {
+		// saferith.Nat.Lsh does not mask the top limb to the requested capacity.
+		(*saferith.Nat)(n).Resize(capacity)
+	}
 }
 
 // Rsh right shifts n by shift bits.
